@@ -23,7 +23,21 @@ def obs_of(c, queries, ctx_only=False):
         idx = 0
         if r is not False:
             idx = [k for k, x in enumerate(objs) if x is r][0] + 1
-        o["has"].append({"sid": sid, "module": mod, "test": test, "idx": idx})
+        # the same question asked with the function object (the signature says Union[callable, str]); -1: it raised
+        fidx = 0
+        try:
+            import importlib
+            fobj = getattr(importlib.import_module("ioos_qc." + mod), test, None)
+            if fobj is not None:
+                r2 = c.has(sid, fobj)
+                fidx = 0 if r2 is False else [k for k, x in enumerate(objs) if x is r2][0] + 1
+            else:
+                fidx = idx
+        except ImportError:
+            fidx = idx
+        except Exception:  # noqa: BLE001
+            fidx = -1
+        o["has"].append({"sid": sid, "module": mod, "test": test, "idx": idx, "fidx": fidx})
     for context, cl in c.contexts.items():
         p = cc.project_calls(cl)
         o["contexts"].append({"win": p[0]["win"], "region": p[0]["region"], "calls": p})
